@@ -973,10 +973,6 @@ func TestVerif_C16_routes(t *testing.T) {
 			if r.Slow && (cred == "read_star" || cred == "write_star") {
 				continue
 			}
-			if (cred == "read_star" || cred == "write_star") && r.Class == c16Admin && verifkit.Known("admin-routes-open") {
-				col.Excluded("admin-routes-open")
-				continue
-			}
 			nt := r.Class != c16Public
 			col.Case(rc, nt, "class:"+r.Class, "cred:"+cred)
 			n++
@@ -1002,14 +998,6 @@ func TestVerif_C16_routes(t *testing.T) {
 		}
 		for _, cred := range []string{"read_alpha", "write_alpha"} {
 			for _, variant := range []string{"foreign", "slash", "decoy"} {
-				if variant == "slash" && r.Where == c16WPath && verifkit.Known("namespace-from-split-path") {
-					col.Excluded("namespace-from-split-path")
-					continue
-				}
-				if variant == "decoy" && r.Where == c16WSrcTgt && verifkit.Known("index-name-decoy") {
-					col.Excluded("index-name-decoy")
-					continue
-				}
 				rc := c16RouteCase{Route: r.Key(), Cred: cred, Variant: variant}
 				col.Case(rc, true, "class:"+r.Class, "cred:"+cred, "variant:"+variant)
 				n++
@@ -1030,10 +1018,6 @@ func TestVerif_C16_routes(t *testing.T) {
 		}
 		for _, cred := range []string{"read_star", "write_star"} {
 			for _, key := range []string{"$VICTIM_MARKER", "$REVOKED_MARKER", c16KeyKV} {
-				if verifkit.Known("kv-exposes-auth-state") {
-					col.Excluded("kv-exposes-auth-state")
-					continue
-				}
 				rc := c16RouteCase{Route: r.Key(), Cred: cred, Variant: key}
 				col.Case(rc, true, "class:"+r.Class, "cred:"+cred, "variant:authkey")
 				n++
